@@ -11,9 +11,17 @@ reflexive, antisymmetric, transitive and total on convertible values FOR ALL val
 "NULL sorts before every non-NULL value" is false for the unchanged code (`cmp_null_last`,
 `finding_null_sorts_last`). "Equals comparing after conversion" holds outside the listed regions
 (`cmp_eq_cmp_convert_partial`) and fails inside them (`finding_*`).
+
+Temporal types (DATE, DATETIME(p), TIMESTAMP(p)): model Gms/Model/TimeCmp.lean (`datetimeType.Compare`,
+`ConvertToTime`), lemmas Gms/Lemmas/TimeCmp.lean; theorems `dt_*` below: the sort key is the exact instant, whose
+order is the calendar order over the whole range 0000..9999 (`dt_str_compare_is_calendar_order`,
+`dt_str_compare_exact`); region `time_operand_not_rounded`. Types without an Impl model: order laws plus the
+reference order `TimeCmp.refOrder` (`refOrder_determines`, `laws_do_not_imply_refOrder`).
 -/
 import Gms.Model.NumConv
+import Gms.Model.TimeCmp
 import Gms.Lemmas.NumConv
+import Gms.Lemmas.TimeCmp
 import Gms.Generated.C26
 
 namespace Gms.Conv
@@ -338,6 +346,47 @@ theorem facts_match_compare_shapes :
         "if hasNulls, res := CompareNulls(a, b); hasNulls => return res, nil", "if ai < bi => return -1, nil",
         "if ai > bi => return 1, nil", "return 0, nil"])] := by decide
 
+/-- `datetimeType.Compare` (go/ast, every statement): NULLs through `CompareNulls`; an operand that is not a
+`time.Time` goes through `ConvertToTime` and its error is returned, a `time.Time` is only truncated by a DATE
+type; then `Before` / `After` on the two instants — `TimeCmp.implCompare` / `TimeCmp.operand`. -/
+theorem facts_match_datetime_compare :
+    Gms.Generated.C26.datetimeCompare = [
+      "if hasNulls, res := CompareNulls(a, b); hasNulls",
+      "  return res, nil",
+      "if at, ok = a.(time.Time); !ok",
+      "  at, err = ConvertToTime(ctx, a, t)",
+      "  if err != nil",
+      "    return 0, err",
+      "else",
+      "if t.baseType == sqltypes.Date",
+      "  at = at.Truncate(24 * time.Hour)",
+      "if bt, ok = b.(time.Time); !ok",
+      "  bt, err = ConvertToTime(ctx, b, t)",
+      "  if err != nil",
+      "    return 0, err",
+      "else",
+      "if t.baseType == sqltypes.Date",
+      "  bt = bt.Truncate(24 * time.Hour)",
+      "if at.Before(bt)",
+      "  return -1, nil",
+      "else",
+      "if at.After(bt)",
+      "  return 1, nil",
+      "return 0, nil"] := by decide
+
+/-- constants of `ConvertToTime`: the rounding unit of precision `p` is `time.Second / precisionConversion[p]`
+= the model's `TTy.unit`; `ZeroTime`, the TIMESTAMP bounds; `t == DatetimeMaxRange` holds exactly for DATETIME(6). -/
+theorem facts_match_datetime_constants :
+    (∀ p, p < 7 → Gms.Generated.C26.precisionConversion[p]? = some (10 ^ p)) ∧
+    Gms.Generated.C26.precisionConversion.length = 7 ∧
+    (∀ p, p < 7 → (TimeCmp.TTy.datetime p).unit * (10 ^ p : Nat) = Cal.nsSec ∧
+      (TimeCmp.TTy.timestamp p).unit = (TimeCmp.TTy.datetime p).unit) ∧
+    TimeCmp.TTy.date.unit = Cal.nsSec ∧
+    Gms.Generated.C26.zeroTimeUnix * Cal.nsSec + Gms.Generated.C26.zeroTimeNanos = TimeCmp.zeroTime ∧
+    Gms.Generated.C26.timestampBounds.1.1 * Cal.nsSec + Gms.Generated.C26.timestampBounds.1.2 = TimeCmp.tsMin ∧
+    Gms.Generated.C26.timestampBounds.2.1 * Cal.nsSec + Gms.Generated.C26.timestampBounds.2.2 = TimeCmp.tsMax ∧
+    Gms.Generated.C26.isMaxRangeType = [false, false, false, false, false, false, true] := by decide
+
 /-! ### Order laws, for all modelled types and ALL values -/
 
 theorem cmp_refl (t : Ty) (a : Val) : implCompare t a a = .eq ∨ implCompare t a a = .err := by
@@ -651,6 +700,263 @@ theorem cmp_eq_cmp_convert_dec_partial (p s : Nat) (col : Bool) (a b : Val)
         cases h1 : storedKey (convertDec p s col a).val <;> cases h2 : storedKey (convertDec p s col b).val <;>
           simp_all
 
+
+/-! ### Temporal types: DATE, DATETIME(p), TIMESTAMP(p) (`datetimeType.Compare`, model `Gms.TimeCmp`)
+
+`Compare` is a comparison through the EXACT instant (an unbounded integer of nanoseconds), hence a total
+preorder (`dt_cmp_*`); the order of instants is the calendar order of the civil fields over the whole range
+0000..9999 (`dt_str_compare_is_calendar_order`, `dt_convert_monotone`); compare-after-convert holds outside
+the regions `null_sorts_last` and `time_operand_not_rounded` (`dt_cmp_eq_cmp_convert_partial`). -/
+
+section temporal
+open TimeCmp Cal
+
+theorem dt_cmp_refl (ty : TTy) (a : TVal) : TimeCmp.implCompare ty a a = .eq ∨ TimeCmp.implCompare ty a a = .err := by
+  rw [TimeCmp.implCompare_eq_viaKey]; exact TimeCmp.viaKey_refl _ a
+
+theorem dt_cmp_antisymm (ty : TTy) (a b : TVal) :
+    TimeCmp.implCompare ty b a = (TimeCmp.implCompare ty a b).flip := by
+  rw [TimeCmp.implCompare_eq_viaKey, TimeCmp.implCompare_eq_viaKey]; exact TimeCmp.viaKey_antisymm _ a b
+
+theorem dt_cmp_trans (ty : TTy) (a b c : TVal)
+    (hab : (TimeCmp.implCompare ty a b).le = true) (hbc : (TimeCmp.implCompare ty b c).le = true) :
+    (TimeCmp.implCompare ty a c).le = true ∧
+      ((TimeCmp.implCompare ty a b = .lt ∨ TimeCmp.implCompare ty b c = .lt) → TimeCmp.implCompare ty a c = .lt) := by
+  rw [TimeCmp.implCompare_eq_viaKey] at hab hbc ⊢
+  rw [TimeCmp.implCompare_eq_viaKey, TimeCmp.implCompare_eq_viaKey]
+  exact TimeCmp.viaKey_trans _ a b c hab hbc
+
+/-- an error only arises from an operand `ConvertToTime` rejects; a `time.Time` operand never raises one -/
+theorem dt_cmp_total (ty : TTy) (a b : TVal) (ha : a = .null ∨ (operand ty a).isSome)
+    (hb : b = .null ∨ (operand ty b).isSome) : TimeCmp.implCompare ty a b ≠ .err := by
+  rw [TimeCmp.implCompare_eq_viaKey]; exact TimeCmp.viaKey_total _ ha hb
+
+theorem dt_cmp_time_total (ty : TTy) (x y : Int) : TimeCmp.implCompare ty (.t x) (.t y) ≠ .err :=
+  dt_cmp_total ty _ _ (Or.inr rfl) (Or.inr rfl)
+
+/-- NULL is ordered last by the temporal types as well (region `null_sorts_last`) -/
+theorem dt_cmp_null_last (ty : TTy) (a : TVal) (ha : a ≠ .null) :
+    TimeCmp.implCompare ty .null a = .gt ∧ TimeCmp.implCompare ty a .null = .lt ∧
+    TimeCmp.implCompare ty .null .null = .eq := by
+  unfold TimeCmp.implCompare
+  rw [TimeCmp.compareNulls_null_left ha, TimeCmp.compareNulls_null_right ha]
+  exact ⟨rfl, rfl, rfl⟩
+
+theorem dt_null_sorts_last_always_wrong (ty : TTy) (a b : TVal) (h : TimeCmp.null_sorts_last a b) :
+    ∃ r, TimeCmp.specCompare ty a b = some r ∧ TimeCmp.implCompare ty a b = r.flip ∧ r ≠ .eq := by
+  rcases h with ⟨ha, hb⟩ | ⟨ha, hb⟩
+  · subst ha
+    refine ⟨.lt, ?_, (dt_cmp_null_last ty b hb).1, by simp⟩
+    cases b <;> simp_all [TimeCmp.specCompare]
+  · subst hb
+    refine ⟨.gt, ?_, (dt_cmp_null_last ty a ha).2.1, by simp⟩
+    cases a <;> simp_all [TimeCmp.specCompare]
+
+theorem finding_dt_null_sorts_last :
+    ∃ ty a b, TimeCmp.null_sorts_last a b ∧ TimeCmp.implCompare ty a b = .gt ∧ TimeCmp.specCompare ty a b = some .lt :=
+  ⟨.datetime 0, .null, .t 0, by decide⟩
+
+/-- DATETIME(0): `Compare(12:00:00.6, 12:00:01)` on two `time.Time` operands is `lt`, after `Convert` both are
+12:00:01 -/
+theorem finding_time_operand_not_rounded :
+    ∃ ty a b, time_operand_not_rounded ty a b ∧ ¬ TimeCmp.null_sorts_last a b ∧
+      TimeCmp.implCompare ty a b = .lt ∧ TimeCmp.specCompare ty a b = some .eq :=
+  ⟨.datetime 0, .t 1577966400600000000, .t 1577966401000000000, by decide⟩
+
+/-- the value `ConvertToTime` returns is the raw value rounded to the type's unit -/
+theorem convertToTime_val (ty : TTy) (v : TVal) (x : Int) (h : convertToTime ty v = some x) :
+    ∃ res, convertRaw ty v = some res ∧ x = roundTo ty.unit res := by
+  unfold convertToTime at h
+  cases hr : convertRaw ty v with
+  | none => simp [hr] at h
+  | some res =>
+    simp only [hr] at h
+    refine ⟨res, rfl, ?_⟩
+    by_cases hz : res = zeroTime
+    · rw [if_pos hz] at h
+      rw [hz, roundTo_of_multiple _ _ (unit_pos ty) (zeroTime_unit ty)]
+      exact (Option.some.inj h).symm
+    · rw [if_neg hz] at h
+      split at h
+      · exact (Option.some.inj h).symm
+      · cases h
+
+/-- an operand that is not a sub-precision `time.Time` is compared by exactly the value `Convert` yields -/
+theorem operand_eq_convert (ty : TTy) (v : TVal) (x : Int) (hsub : ¬ subPrecision ty v)
+    (h : convertToTime ty v = some x) : operand ty v = some x := by
+  cases v with
+  | t ns =>
+    obtain ⟨res, hr, hx⟩ := convertToTime_val ty _ x h
+    simp only [convertRaw, Option.some.injEq] at hr
+    simp only [subPrecision, ne_eq, Decidable.not_not] at hsub
+    rw [hr] at hsub
+    rw [roundTo_of_multiple _ _ (unit_pos ty) hsub] at hx
+    simp only [operand, hr, hx]
+  | null => exact h
+  | c f => exact h
+  | zero => exact h
+  | i n => exact h
+  | bad => exact h
+
+/-- Compare-after-convert for the temporal types, every value kind: outside the listed regions `Compare`
+equals the chronological comparison of the converted values whenever the property determines it. -/
+theorem dt_cmp_eq_cmp_convert_partial (ty : TTy) (a b : TVal)
+    (h1 : ¬ TimeCmp.null_sorts_last a b) (h2 : ¬ time_operand_not_rounded ty a b)
+    (r : Cmp) (hs : TimeCmp.specCompare ty a b = some r) : TimeCmp.implCompare ty a b = r := by
+  have hsa : ¬ subPrecision ty a := fun h => h2 (Or.inl h)
+  have hsb : ¬ subPrecision ty b := fun h => h2 (Or.inr h)
+  by_cases ha : a = .null
+  · by_cases hb : b = .null
+    · subst ha hb
+      simp [TimeCmp.specCompare] at hs
+      subst hs; rfl
+    · exact absurd (Or.inl ⟨ha, hb⟩) h1
+  · by_cases hb : b = .null
+    · exact absurd (Or.inr ⟨ha, hb⟩) h1
+    · have key : TimeCmp.specCompare ty a b =
+          match convertToTime ty a, convertToTime ty b with
+          | some x, some y => some (cmpInt x y)
+          | _, _ => none := by
+        cases a <;> cases b <;> first | exact absurd rfl ha | exact absurd rfl hb | rfl
+      rw [key] at hs
+      cases hca : convertToTime ty a with
+      | none => simp [hca] at hs
+      | some x =>
+        cases hcb : convertToTime ty b with
+        | none => simp [hca, hcb] at hs
+        | some y =>
+          simp only [hca, hcb, Option.some.injEq] at hs
+          unfold TimeCmp.implCompare
+          rw [TimeCmp.compareNulls_of_ne ha hb, operand_eq_convert ty a x hsa hca, operand_eq_convert ty b y hsb hcb]
+          exact hs
+
+/-- the raw value of a string is monotone in the instant it spells -/
+theorem convert_str (ty : TTy) (f : Fields) (x : Int) (h : convertToTime ty (.c f) = some x) :
+    validFields f ∧ x = roundTo ty.unit (if ty.isDate then truncDay (goDate f) else goDate f) := by
+  obtain ⟨res, hr, hx⟩ := convertToTime_val ty _ x h
+  simp only [convertRaw] at hr
+  by_cases hv : validStr f = true
+  · rw [if_pos hv] at hr
+    simp only [validStr, Bool.and_eq_true, decide_eq_true_eq] at hv
+    exact ⟨hv.1.1, by rw [hx, ← Option.some.inj hr]⟩
+  · rw [if_neg hv] at hr; cases hr
+
+/-- **`Convert` never inverts the chronological order** (rounding and DATE truncation are monotone):
+for string operands spelling the civil fields `f`, `g` -/
+theorem dt_convert_monotone (ty : TTy) (f g : Fields) (x y : Int)
+    (hx : convertToTime ty (.c f) = some x) (hy : convertToTime ty (.c g) = some y)
+    (hle : goDate f ≤ goDate g) : x ≤ y := by
+  obtain ⟨_, ex⟩ := convert_str ty f x hx
+  obtain ⟨_, ey⟩ := convert_str ty g y hy
+  rw [ex, ey]
+  apply roundTo_mono _ _ _ (unit_pos ty)
+  cases ty.isDate
+  · exact hle
+  · exact truncDay_mono _ _ hle
+
+/-- **`Compare` respects the calendar order over the whole range** (any temporal type, any two strings the type
+accepts): if `f` is not after `g` in the lexicographic order of (year, month, day, hour, minute, second,
+nanosecond) then `Compare` does not say `gt` — in particular for dates beyond any 64-bit nanosecond window. -/
+theorem dt_str_compare_is_calendar_order (ty : TTy) (f g : Fields) (x y : Int)
+    (hx : convertToTime ty (.c f) = some x) (hy : convertToTime ty (.c g) = some y)
+    (hle : (lexCmp f g).le = true) : (TimeCmp.implCompare ty (.c f) (.c g)).le = true := by
+  obtain ⟨vf, _⟩ := convert_str ty f x hx
+  obtain ⟨vg, _⟩ := convert_str ty g y hy
+  rw [← cmpInt_goDate_eq_lexCmp f g vf vg, ci_le] at hle
+  have hxy := dt_convert_monotone ty f g x y hx hy hle
+  have e : TimeCmp.implCompare ty (.c f) (.c g) = cmpInt x y := by
+    simp only [TimeCmp.implCompare, TimeCmp.compareNulls, operand, hx, hy]
+  rw [e, ci_le]; exact hxy
+
+/-- DATETIME(6), strings with microsecond resolution spelling any valid date of the years 0..9999: `Compare`
+never fails and IS the lexicographic comparison of the civil fields. -/
+theorem dt_str_compare_exact (f g : Fields) (hf : validStr f = true) (hg : validStr g = true)
+    (hfu : f.ns % 1000 = 0) (hgu : g.ns % 1000 = 0) :
+    TimeCmp.implCompare (.datetime 6) (.c f) (.c g) = lexCmp f g := by
+  have conv : ∀ h : Fields, validStr h = true → h.ns % 1000 = 0 →
+      validFields h ∧ convertToTime (.datetime 6) (.c h) = some (goDate h) := by
+    intro h hv hu
+    have hv' := hv
+    simp only [validStr, Bool.and_eq_true, decide_eq_true_eq] at hv'
+    obtain ⟨⟨vh, y0⟩, y1⟩ := hv'
+    refine ⟨vh, ?_⟩
+    obtain ⟨eh, t0, t1⟩ := goDate_split h vh
+    have cv := validFields_civil h vh
+    have lo := dfc_le_of_lex 0 1 1 h.y h.mo h.d (by unfold validCivil; decide) cv (by obtain ⟨a, b, c, d⟩ := cv; omega)
+    have hi := dfc_le_of_lex h.y h.mo h.d 9999 12 31 cv (by unfold validCivil; decide) (by
+      obtain ⟨a, b, c, d⟩ := cv
+      have : dim h.y h.mo ≤ 31 := by simp only [dim]; split <;> (try split) <;> omega
+      omega)
+    have e0 : dfc 0 1 1 = -719528 := by decide
+    have e1 : dfc 9999 12 31 = 2932896 := by decide
+    have ez : zeroTime = -62169984000000000000 := by decide
+    have em : maxTime = 253402300799999999000 := by decide
+    obtain ⟨_, _, _, _, a5, a6, a7, a8, a9, a10, a11, a12⟩ := vh
+    have hmul : goDate h % 1000 = 0 := by
+      rw [eh]; simp only [nsDay, nsHour, nsMin, nsSec]; omega
+    have hround : roundTo (TTy.datetime 6).unit (goDate h) = goDate h :=
+      roundTo_of_multiple _ _ (unit_pos _) (by simpa [TTy.unit, TTy.precision] using hmul)
+    have hge : zeroTime < goDate h := by
+      rw [ez, eh]; simp only [nsDay, nsHour, nsMin, nsSec] at *; omega
+    have hle : goDate h ≤ maxTime := by
+      rw [em, eh]; simp only [nsDay, nsHour, nsMin, nsSec] at *; omega
+    simp only [convertToTime, convertRaw, hv, if_true, TTy.isDate, Bool.false_eq_true, if_false]
+    rw [if_neg (by omega), hround]
+    simp only [rangeOK, if_true]
+    rw [if_pos]
+    simp only [Bool.not_eq_true', Bool.or_eq_false_iff, decide_eq_false_iff_not]
+    omega
+  obtain ⟨vf, cf⟩ := conv f hf hfu
+  obtain ⟨vg, cg⟩ := conv g hg hgu
+  rw [← cmpInt_goDate_eq_lexCmp f g vf vg]
+  simp only [TimeCmp.implCompare, TimeCmp.compareNulls, operand, cf, cg]
+
+/-- non-vacuity / the instants really leave every 64-bit nanosecond window: 9999-12-31 vs 5000-01-01 vs
+1000-01-01, as strings and as `time.Time` -/
+example : TimeCmp.implCompare (.datetime 0) (.c ⟨9999, 12, 31, 0, 0, 0, 0⟩) (.c ⟨5000, 1, 1, 0, 0, 0, 0⟩) = .gt ∧
+    TimeCmp.implCompare .date (.c ⟨2262, 4, 11, 23, 47, 17, 0⟩) (.c ⟨1000, 1, 1, 0, 0, 0, 0⟩) = .gt ∧
+    TimeCmp.implCompare (.datetime 6) (.t 253402214400000000000) (.t (-30610224000000000000)) = .gt ∧
+    goDate ⟨9999, 12, 31, 0, 0, 0, 0⟩ - goDate ⟨1000, 1, 1, 0, 0, 0, 0⟩ > 15 * 2 ^ 64 ∧
+    TimeCmp.implCompare (.datetime 0) (.c ⟨2020, 1, 2, 12, 0, 0, 600000000⟩) (.t 1577966401000000000) = .eq ∧
+    TimeCmp.implCompare (.timestamp 0) (.c ⟨2038, 1, 19, 3, 14, 8, 0⟩) (.c ⟨1970, 1, 1, 0, 0, 1, 0⟩) = .err ∧
+    TimeCmp.implCompare .date (.t 1578006000000000000) (.c ⟨2020, 1, 2, 0, 0, 0, 0⟩) = .eq ∧
+    TimeCmp.implCompare (.datetime 0) .zero (.c ⟨0, 1, 1, 0, 0, 0, 0⟩) = .lt ∧
+    TimeCmp.implCompare (.datetime 0) (.c ⟨2021, 2, 29, 0, 0, 0, 0⟩) (.c ⟨2021, 2, 28, 0, 0, 0, 0⟩) = .err := by decide
+
+example : ¬ TimeCmp.null_sorts_last (.c ⟨2020, 1, 2, 12, 0, 0, 600000000⟩) (.t 1577966401000000000) ∧
+    ¬ time_operand_not_rounded (.datetime 0) (.c ⟨2020, 1, 2, 12, 0, 0, 600000000⟩) (.t 1577966401000000000) ∧
+    TimeCmp.specCompare (.datetime 0) (.c ⟨2020, 1, 2, 12, 0, 0, 600000000⟩) (.t 1577966401000000000) = some .eq := by
+  decide
+
+example : validStr ⟨9999, 12, 31, 23, 59, 59, 999999000⟩ = true ∧ validStr ⟨0, 1, 1, 0, 0, 0, 0⟩ = true ∧
+    lexCmp ⟨9999, 12, 31, 23, 59, 59, 999999000⟩ ⟨0, 1, 1, 0, 0, 0, 0⟩ = .gt := by decide
+
+end temporal
+
+/-! ### Reference order (stream B, types without an Impl model: TIME, ENUM, SET, DOUBLE) -/
+
+/-- a comparison that orders by the reference rank passes the check … -/
+theorem refOrder_of_rank {α : Type} (r : α → Int) (a b c : α) :
+    TimeCmp.refOrder ⟨cmpInt (r a) (r b), cmpInt (r b) (r a), cmpInt (r b) (r c), cmpInt (r c) (r b),
+      cmpInt (r a) (r c), cmpInt (r c) (r a), cmpInt (r a) (r a), cmpInt (r b) (r b), cmpInt (r c) (r c)⟩
+      (some (r a)) (some (r b)) (some (r c)) = true := by
+  simp [TimeCmp.refOrder, TimeCmp.refPair]
+
+/-- … and nothing else does: with all three ranks known, every one of the nine results is determined -/
+theorem refOrder_determines (t : Tri) (x y z : Int) (h : TimeCmp.refOrder t (some x) (some y) (some z) = true) :
+    t = ⟨cmpInt x y, cmpInt y x, cmpInt y z, cmpInt z y, cmpInt x z, cmpInt z x, cmpInt x x, cmpInt y y, cmpInt z z⟩ := by
+  obtain ⟨ab, ba, bc, cb, ac, ca, aa, bb, cc⟩ := t
+  simp only [TimeCmp.refOrder, TimeCmp.refPair, Bool.and_eq_true, beq_iff_eq] at h
+  obtain ⟨⟨⟨⟨⟨⟨⟨⟨h1, h2⟩, h3⟩, h4⟩, h5⟩, h6⟩, h7⟩, h8⟩, h9⟩ := h
+  subst h1 h2 h3 h4 h5 h6 h7 h8 h9; rfl
+
+/-- the order laws alone do not imply it: ordering three values by a key wrapped modulo 2^64 (ranks 0, 2^63,
+2^64 ↦ keys 0, -2^63, 0 as an int64) is reflexive, antisymmetric and transitive, yet not the order of the values —
+the class of change the law oracle cannot see -/
+theorem laws_do_not_imply_refOrder :
+    ∃ t : Tri, t.refl = true ∧ t.antisymm = true ∧ t.trans = true ∧
+      TimeCmp.refOrder t (some 0) (some (2 ^ 63)) (some (2 ^ 64)) = false :=
+  ⟨⟨.gt, .lt, .lt, .gt, .eq, .eq, .eq, .eq, .eq⟩, by decide⟩
 
 /-! ### Non-vacuity -/
 
